@@ -167,7 +167,14 @@ def attr_str(pairs):
     return ''.join(f'[{k}="{v}"]' for k, v in pairs)
 
 
+def _norm(l):
+    """whitespace- and semicolon-insensitive form of a DOT line"""
+    return re.sub(r'\s+', '', l.strip().rstrip(';'))
+
+
 def eval_dot(scen, obs):
+    """structure of the DOT text, tolerant of indentation / spacing / trailing semicolons: the property fixes
+    which statements appear (and, per node, the order of its edge statements), not the layout"""
     fl = scen['flavour']
     ab = abnormal(obs)
     if ab:
@@ -179,57 +186,41 @@ def eval_dot(scen, obs):
     cs = []
     if not isinstance(text, str):
         return [(False, f'DOT export returned {text}', 'dot')]
-    lines = text.split('\n')
-    ok_frame = lines[0] == 'digraph {' and lines[-1] == '}'
-    cs.append((ok_frame, f'DOT text does not start with "digraph {{" and end with "}}": {text!r}', 'dot-frame'))
+    lines = [l for l in text.split('\n') if l.strip()]
+    ok_frame = len(lines) >= 2 and re.fullmatch(r'(strict)?(di)?graph\w*\{', _norm(lines[0])) is not None and _norm(lines[-1]) == '}'
+    cs.append((ok_frame, f'DOT text is not framed by "digraph {{" ... "}}": {text!r}', 'dot-frame'))
     if not ok_frame:
         return cs
-    body = lines[1:-1]
-    if st[0] == 'g_to_dot':
-        # node statement, followed by that node's edge statements in iteration order
-        groups = []
-        for l in body:
-            m = re.fullmatch(r'    (\d+)', l)
-            m2 = re.fullmatch(r'    (\d+) -> (\d+)', l)
-            if m:
-                groups.append([int(m.group(1)), []])
-            elif m2 and groups and groups[-1][0] == int(m2.group(1)):
-                groups[-1][1].append(int(m2.group(2)))
-            else:
-                return cs + [(False, f'unexpected DOT line {l!r} in {text!r}', 'dot-line')]
-        cs.append((sorted(g[0] for g in groups) == sorted(members), f'to_dot has node statements {[g[0] for g in groups]}, members are {sorted(members)}', 'dot-nodes'))
-        for k, tg in groups:
-            if k in members:
-                exp = [t for t, _ in dump[k][lst]]
-                cs.append((tg == exp, f'to_dot lists edges {k} -> {tg}, iterating node {k} yields {exp}', 'dot-edges'))
-        return cs
-    spec = st[1]
-    exp_g = [f'\t{k}="{v}"' for k, v in (spec['gattr'] or [])]
+    body = [_norm(l) for l in lines[1:-1]]
+    spec = st[1] if st[0] == 'g_to_dot_attr' else {'gattr': None, 'nattr': [], 'eattr': []}
+    exp_g = [_norm(f'{k}="{v}"') for k, v in (spec['gattr'] or [])]
     cs.append((body[:len(exp_g)] == exp_g, f'graph attribute lines {body[:len(exp_g)]} != {exp_g}', 'dot-gattr'))
     rest = body[len(exp_g):]
-    nl = rest[:len(members)]
-    el = rest[len(members):]
     nat = {k: p for k, p in spec['nattr']}
-    exp_n = sorted(f'\t{k}' + (f' {attr_str(nat[k])}' if k in nat else '') for k in members)
-    cs.append((sorted(nl) == exp_n, f'node statements {nl} != {exp_n} (any order)', 'dot-nodes'))
     eat = {(a, b): p for a, b, p in spec['eattr']}
-    # edge statements: grouped by member in some order, each member's edges in iteration order
+    node_stmts = []
     per = {}
     order = []
-    for l in el:
-        m = re.match(r'\t(\d+) -> (\d+)', l)
-        if not m:
-            return cs + [(False, f'unexpected DOT edge line {l!r}', 'dot-line')]
-        u = int(m.group(1))
-        if u not in per:
-            per[u] = []
-            order.append(u)
-        elif order[-1] != u:
-            return cs + [(False, f'edge statements of node {u} are not contiguous: {el}', 'dot-edges')]
-        per[u].append(l)
+    for l in rest:
+        m2 = re.fullmatch(r'(\d+)->(\d+)(.*)', l)
+        m = re.fullmatch(r'(\d+)(.*)', l)
+        if m2:
+            u = int(m2.group(1))
+            if u in per and order[-1] != u:
+                return cs + [(False, f'edge statements of node {u} are not contiguous in {text!r}', 'dot-edges')]
+            if u not in per:
+                per[u] = []
+                order.append(u)
+            per[u].append((int(m2.group(2)), m2.group(3)))
+        elif m:
+            node_stmts.append((int(m.group(1)), m.group(2)))
+        else:
+            return cs + [(False, f'unexpected DOT line {l!r} in {text!r}', 'dot-line')]
+    exp_nodes = sorted((k, _norm(attr_str(nat[k])) if k in nat else '') for k in members)
+    cs.append((sorted(node_stmts) == exp_nodes, f'node statements {node_stmts} != one per member {exp_nodes}', 'dot-nodes'))
     for k in members:
-        exp = [f'\t{k} -> {t}' + (f' {attr_str(eat[(k, t)])}' if (k, t) in eat else '') for t, _ in dump[k][lst]]
-        cs.append((per.get(k, []) == exp, f'edge statements of node {k}: {per.get(k, [])} != {exp}', 'dot-edges'))
+        exp = [(t, _norm(attr_str(eat[(k, t)])) if (k, t) in eat else '') for t, _ in dump[k][lst]]
+        cs.append((per.get(k, []) == exp, f'edge statements of node {k}: {per.get(k, [])} != {exp} (the edges iterating the node yields, in order)', 'dot-edges'))
     cs.append((all(u in members for u in per), f'edge statements for non-members: {sorted(per)}', 'dot-edges'))
     return cs
 
